@@ -104,19 +104,21 @@ def check_flat(result, inputs, answers_lists, table, ordered, partial_credit, ta
 class Tables(Family):
     """(a) every n x n credit table"""
 
-    def __init__(self, name, n, palette, tiers):
+    def __init__(self, name, n, palette, tiers, inputs=None):
         self.name = name
         self.n = n
         self.palette = palette
         self.tiers = tiers
+        self.given_inputs = inputs
         self.rule = ('every %dx%d credit table over %s x ordered {T,F} x partial_credit {T,F}; unordered results must be a '
-                     'one-to-one assignment with brute-force maximal total, each entry at the position of its input'
-                     % (n, n, palette))
+                     'one-to-one assignment with brute-force maximal total, each entry at the position of its input%s'
+                     % (n, n, palette, '' if inputs is None else '; the submitted boxes are %r (blank boxes are graded by the '
+                        'subgrader like any other)' % (inputs,)))
 
     def setup(self, tier):
         n = self.n
         self.answers = ['A%d' % k for k in range(n)]
-        self.inputs = ['I%d' % j for j in range(n)]
+        self.inputs = list(self.given_inputs) if self.given_inputs else ['I%d' % j for j in range(n)]
         self.graders = {}
         for ordered in (False, True):
             for pc in (False, True):
@@ -541,9 +543,10 @@ def families(tier):
         Tables('tables_3x3_bin', 3, (0, 1), ('quick',)),
         Tables('tables_3x3', 3, (0, 0.5, 1), ('quick', 'thorough')),
         Tables('tables_4x4_bin', 4, (0, 1), ('quick', 'thorough')),
+        Tables('tables_3x3_blank_boxes', 3, (0, 0.5, 1), ('quick', 'thorough'), inputs=['', 'I1', '  ']),
         TablesTwoFree('tables_4x4_two_free_inputs', ('quick', 'thorough')),
         TablesTwoFree('tables_4x4_two_free_answers', ('thorough',), transposed=True),
-        Tables('tables_2x2_fine', 2, (0, 0.1, 0.3, 1.0 / 3, 0.5, 0.7, 1), ('quick', 'thorough')),
+        Tables('tables_2x2_fine', 2, (0, 0.1, 0.3, 0.33, 1.0 / 3, 0.5, 0.504, 0.7, 0.996, 1), ('quick', 'thorough')),
         Orders(),
         TwoLists('two_lists_2x2', 2, (0, 0.5, 1), ('quick', 'thorough')),
         TwoLists('two_lists_3x3_bin', 3, (0, 1), ('thorough',)),
